@@ -139,6 +139,17 @@ CHECKS = {
         note="modelled not verified: Python re (recogniser differential-tested against the pattern read from source), glibc inet_aton/inet_ntoa, CPython int() incl. the 4300-digit limit; win32 branch not covered; iproute2 host routes without '/len' are skipped by the code (recorded as an observation).",
         design="DESIGN.md §5 C17",
         technique="Coq proof (bit arithmetic via div/mod, recognisers, totality of the line scanner) + differential correspondence with an ipaddress oracle"),
+
+    "C18": dict(
+        text=("10 theorems (Props/C18.v) with zlib abstract (only the sync-flush law is assumed, as an explicit premise): for every list of module "
+              "sources of any size incl. empty (with the `if not data` fallback), every assembler text and EVERY segmentation of the upload the "
+              "bootstrap one-liner reads exactly the assembler, the registered modules equal the packaged ones in order and byte for byte and the "
+              "loop stops at the final blank name; the options module evaluates to the client's values; nothing but the two uploads is written "
+              "before the sync string is verified; the server's first stdout bytes are the sync string (regenerated constants). Tied to /repo by "
+              "running the REAL bootstrap produced by ssh.connect in fresh interpreters with an audit-hook prelude, fed in arbitrary segmentations."),
+        note="modelled not verified: zlib beyond the sync-flush law, compile/exec of module bodies, repr(str) outside printable ASCII without quote/backslash, text-mode newline translation in get_module_source, a blocking send being complete.",
+        design="DESIGN.md §5 C18",
+        technique="Coq proof (assembler loop on a buffered reader, induction over the module list and over read cuttings) + real-bootstrap correspondence"),
 }
 
 NOT_YET = {}
